@@ -8,6 +8,7 @@ from ..srcmodel import unparse, norm, walk_no_nested, calls_in
 from .common import is_method_call, get_kw, recv_of, node_obj, fde_guard, parent_chain, PRIOS
 from . import mergerules as mr
 
+from . import unitrules
 from .common import Guard  # noqa: E402
 
 PROP = 'C15'
@@ -254,6 +255,7 @@ def check(repo, run, tier):
     g(r2, repo, run)
     g(r3r4, repo, run)
     g(r5, repo, run)
+    g(unitrules.propagate_implicit_table, repo, run, 'C15.R1', ('delete', 'allow_new'))
     g.done()
 
 
